@@ -39,7 +39,7 @@ def cases():
         'attach': st.sampled_from([None, None] + lifecycle.ATTACH_KINDS),
         'kit': kit, 'when': st.sampled_from([0.5, 1, 3, 4.25]), 'hz': st.sampled_from([6, 12, 20]),
         'split': st.sampled_from([[1], [1], [0.25, 0.75], [0.5, 0.125, 0.375]]), 'older': st.sampled_from([0, 0, 1, 2]),
-        'older_ran': st.booleans(), 'between': st.sampled_from([False, False, True]),
+        'older_ran': st.booleans(), 'between': st.sampled_from([False, False, True]), 'sibling': st.booleans(),
         'tb': st.tuples(st.sampled_from(['fifo', 'lifo', 'const']), st.just(0)).map(list)})
 
 
